@@ -209,12 +209,17 @@ class Statement(object):
             range_count = range(rel_index, this_index)
 
         for x in range_count:
-            max_size += statements[x].code_pkg.max_size
+            max_size += max(statements[x].code_pkg.max_size, statements[x].code_pkg.size)
             min_size += statements[x].code_pkg.size
 
         raw_post_byte = self.code_pkg.post_byte.int
-        max_size += 2
-        min_size += 2
+        if positive_range:
+            max_size += 2
+            min_size += 2
+        else:
+            # a backward displacement also spans this instruction: opcode, post-byte and the 8-bit offset
+            max_size += self.code_pkg.size + 1
+            min_size += self.code_pkg.size + 1
 
         if positive_range:
             if min_size <= 127 and max_size <= 127:
